@@ -218,6 +218,12 @@ func TestC17(t *testing.T) {
 			case 0:
 				ret = call("split", lang.Str(s), lang.Str(d))
 			case 1:
+				if gen.Uniform(rt, "sjbytes", 4) == 0 {
+					// a text of the host that is not valid UTF-8: cut and glued
+					// together again it is the same bytes
+					s = rapid.SampledFrom([]string{"a\xffb", "\xc3", "\xe7\x8b", "ab\x80\x80", "\xf0\x9f\x98", "é\xffé", "\xff", ",\xfe,", "a\xc3 \xa9b"}).Draw(rt, "sbytes") + s
+					col.Class("split-join-law-on-text-that-is-not-utf8")
+				}
 				es, ed := arg(lang.Str(s)), arg(lang.Str(d))
 				ret = lang.Binary{Op: "==", L: lang.Call{Fn: "join", Args: []lang.Expr{lang.Call{Fn: "split", Args: []lang.Expr{es, ed}}, ed}}, R: es}
 			default:
